@@ -63,8 +63,8 @@ def run(ctx):
   # a population of fresh healthy RSA keys (a false-positive rate of 1 in 64 is seen with probability > 99 %)
   import multiprocessing as mp
   nb, per = (16, 20) if ctx.quick else (100, 20)
-  with mp.get_context('fork').Pool(processes=15, maxtasksperchild=2) as pool:
-    res = list(pool.imap_unordered(population_worker, [(i, per, ctx.seed) for i in range(nb)], chunksize=1))
+  from pv import proc
+  res = list(proc.imap_unordered(population_worker, [(i, per, ctx.seed) for i in range(nb)], procs=15))
   pop = []
   for rec, err in res:
     if err:
